@@ -77,9 +77,9 @@ Theorem C09_drop_suppresses_forwarding :
   (forall cf ps connected r1 l2 l3 rx,
      chain HCR ARequest handle_client_request ps r1 l2 = (l3, Dropped rx) ->
      after_connect cf ps connected r1 l2 = (l3, Continue (mkState rx connected None)))
-  /\ (forall cf ps st pr l l1 rx,
+  /\ (forall cf ps st pr buf l l1 rx,
      chain HCR ARequest handle_client_request ps pr l = (l1, Dropped rx) ->
-     run_later cf ps st pr l = (l1, Continue (mkState (st_request st) true (Some rx)))
+     run_later cf ps st pr buf l = (l1, Continue (mkState (st_request st) true (Some (rx, buf))), None)
      /\ upstream_queue l1 = upstream_queue l).
 Proof. exact (conj drop_first_request drop_later_request). Qed.
 Print Assumptions C09_drop_suppresses_forwarding.
@@ -104,9 +104,9 @@ Theorem C09_reject_exact_hcr :
      chain HCR ARequest handle_client_request ps r1 l2 = (l3, Rejected rx resp) ->
      after_connect cf ps connected r1 l2 = (l3, Failed (mkState rx connected None) (FReject resp))
      /\ upstream_queue l3 = upstream_queue l2 /\ client_queue l3 = client_queue l2)
-  /\ (forall cf ps st pr l l1 rx resp,
+  /\ (forall cf ps st pr buf l l1 rx resp,
      chain HCR ARequest handle_client_request ps pr l = (l1, Rejected rx resp) ->
-     run_later cf ps st pr l = (l1, Failed (mkState (st_request st) true (Some rx)) (FReject resp))
+     run_later cf ps st pr buf l = (l1, Failed (mkState (st_request st) true (Some (rx, buf))) (FReject resp), None)
      /\ upstream_queue l1 = upstream_queue l /\ client_queue l1 = client_queue l).
 Proof. exact (conj reject_first_request reject_later_request). Qed.
 Print Assumptions C09_reject_exact_hcr.
